@@ -956,6 +956,18 @@ func C10(ctx *core.Ctx) error {
 		}
 	}
 	if ctx.Replay != "" {
+		var hsc c10HistScenario
+		if _, err := core.LoadReplay(ctx.Replay, &hsc); err == nil && hsc.Type != "" {
+			r := c10HistRun(hsc, keys)
+			if r.Inconcl != "" {
+				return core.Inconcl("replay %s: %s", hsc.key(), r.Inconcl)
+			}
+			fmt.Printf("replay %s: %d violation(s), outcomes %v, drift %v\n", hsc.key(), len(r.Viols), r.Outs, r.Drift)
+			for _, v := range r.Viols {
+				ctx.Report(v.Key, v.What, hsc)
+			}
+			return nil
+		}
 		var sc c10Scenario
 		if _, err := core.LoadReplay(ctx.Replay, &sc); err != nil {
 			return core.Inconcl("cannot load replay: %v", err)
@@ -979,8 +991,10 @@ func C10(ctx *core.Ctx) error {
 	var toyRes pcTraceResult
 	var toyErr error
 	var gen *pcToyGen
+	var hist *hPhase
 	var wg sync.WaitGroup
-	wg.Add(2)
+	wg.Add(3)
+	go func() { defer wg.Done(); hist = c10HistPhase(ctx, keys) }()
 	go func() { defer wg.Done(); mcGroups, mcErr = c10RunMC(ctx) }()
 	go func() {
 		defer wg.Done()
@@ -1027,6 +1041,10 @@ func C10(ctx *core.Ctx) error {
 			drifts++
 			ctx.Note("drift: scenario %s: %s", r.Sc.key(), strings.Join(r.Drift, "; "))
 		}
+	}
+	// call histories and object identity (spec/ProofsHist.tla, c10_hist.go)
+	if err := c10HistJudge(ctx, cov, hist); err != nil {
+		return err
 	}
 	for _, s := range pcSystems {
 		for _, r := range results {
